@@ -1059,13 +1059,30 @@ func (s *SetOperation) SQL() string {
 	if s == nil {
 		return ""
 	}
-	left := stmtSQL(s.Left)
-	right := stmtSQL(s.Right)
-	op := s.Operator
-	if s.All {
-		op += " ALL"
+	// A chain a UNION b UNION c ... is nested to the left. It is written from its innermost
+	// operation outwards into one builder, so that every operand is copied once: building the
+	// text of the left operand first and copying it at every level cost a number of bytes
+	// quadratic in the number of operands.
+	chain := []*SetOperation{s}
+	for {
+		next, ok := chain[len(chain)-1].Left.(*SetOperation)
+		if !ok || next == nil {
+			break
+		}
+		chain = append(chain, next)
 	}
-	return fmt.Sprintf("%s %s %s", left, op, right)
+	var sb strings.Builder
+	sb.WriteString(stmtSQL(chain[len(chain)-1].Left))
+	for i := len(chain) - 1; i >= 0; i-- {
+		sb.WriteByte(' ')
+		sb.WriteString(chain[i].Operator)
+		if chain[i].All {
+			sb.WriteString(" ALL")
+		}
+		sb.WriteByte(' ')
+		sb.WriteString(stmtSQL(chain[i].Right))
+	}
+	return sb.String()
 }
 
 func (v *Values) SQL() string {
